@@ -49,6 +49,12 @@ CHECKS = {
  "C19": ("exploration", "§9 C19",
    "The real executors of pkg/hooks (plain / ETag with 3 s or 30 s cache TTL, strict / loose) run in the bubble against a scripted webhook; 1-3 client goroutines issue calls about 1-2 parents (shared cache key, different content) and the kernel interleaves, delays and ages their round trips (header enrichment, round trip and response adjustment of concurrent calls in every order). Scripted answers: 200 with / without ETag, 200+ETag with an unknown field, 304 / 412 with and without If-None-Match, 429 with numeric / date / absent / garbage Retry-After, other status codes, unknown and duplicate fields, truncated JSON, stall past the timeout, connection refused. Oracle per call: success iff 200 (or 304/412 answering a sent If-None-Match) with a decodable body that strict mode accepts; on 304/412 the decoded body is the one the script sent with exactly the ETag the request carried (or the call fails when a concurrent call replaced the cache entry meanwhile); 429 yields the advertised delay; everything else is an error; no call hangs or crashes the process.",
    "deterministic simulation of concurrent calls against a scripted peer, per-call reference oracle"),
+ "C14": ("exploration", "§9 C14",
+   "Composite (with controller label selector, customize rules, ignoreStatusChanges on/off, generateSelector, namespaced / cluster parents) and decorator controllers are brought to rest; then, round after round, exactly one change is made - parent spec / status-only / labels edit, edit of an unmanaged parent, owned child edited / status-changed / deleted, matching orphan created or relabelled into the selector, foreign-owned child, child whose owner reference has the right name but a wrong UID or kind, related object edited / relabelled away / deleted / unselected one edited, parent created, parent deleted; deletions also delivered only through a relist tombstone (watch broken, history compacted) - and the run continues to rest. Oracle per round from hook calls and work-queue add events: every parent the statement requires is synced (a deleted one at least queued), the parents it excludes are not, and the explicit negatives add nothing to the queue. Over-triggering beyond the statement is not flagged.",
+   "deterministic simulation, one event per round, completeness/negative oracle on queue and hook activity"),
+ "C15": ("exploration", "§9 C15",
+   "Composite controllers with a customize hook whose rules are carried by the parent (label selectors incl. empty and expressions, namespace only, names only, both, invalid mixes, several rules per resource, foreign namespace) over related ConfigMaps, Secrets and cluster-scoped objects in three namespaces; related objects are edited, relabelled, deleted and created, rule sets replaced, customize calls fail, caches lag, and in a third of the runs the clock passes the 20-minute answer cache. Oracle: the related map of every sync/finalize request equals the selection computed from the parent's rules and the reconstructed cache views (shown objects byte-equal to the server version and selected in some view; objects selected in every view shown; documented keys), confined to the parent's namespace; invalid rule sets are reported and never reach the sync hook; the customize hook is not asked twice for one UID and generation within the cache lifetime unless the calls overlap.",
+   "deterministic simulation, reference selection model over reconstructed cache views"),
 }
 
 NA = {
